@@ -21,8 +21,11 @@ Definition res_same (a b : res graph) : bool :=
   end.
 Definition c04_ok (a : chain) : bool :=
   negb (Nat.eqb (class_C04 true a) 0) || res_same (read_cgsmiles fo_none (print true a)) (denote fo_none a).
+(** identity numbering: claimed when no multiplied unit contains a nested branch (with a nested branch
+    the implementation numbers the copies differently from the longhand; the graphs are then only
+    isomorphic, which the per-run check verifies with a renumbering witness) *)
 Definition c05_ok (a : chain) : bool :=
-  negb (Nat.eqb (class_C05 true a) 0) || Nat.eqb (model_C05 fo_none true a None) 0.
+  negb (Nat.eqb (class_C05 true a) 0) || nested_any a || Nat.eqb (model_C05 fo_none true a None) 0.
 
 Lemma C04_small_list : forallb (fun a => wf fo_none a && c04_ok a) small_c04 = true.
 Proof. vm_compute. reflexivity. Qed.
@@ -32,5 +35,5 @@ Proof. vm_compute. reflexivity. Qed.
 (** the lists are not vacuous: how many members lie outside every defect class *)
 Lemma C04_small_nonvacuous : (5000 <=? length (filter (fun a => Nat.eqb (class_C04 true a) 0) small_c04))%nat = true.
 Proof. vm_compute. reflexivity. Qed.
-Lemma C05_small_nonvacuous : (500 <=? length (filter (fun a => Nat.eqb (class_C05 true a) 0) small_c05))%nat = true.
+Lemma C05_small_nonvacuous : (500 <=? length (filter (fun a => Nat.eqb (class_C05 true a) 0 && negb (nested_any a)) small_c05))%nat = true.
 Proof. vm_compute. reflexivity. Qed.
